@@ -292,7 +292,7 @@ def conditions(tier):
 
 
 META = {
-    "bounds": {"quick": "3 data items (two sharing a 2-hex-digit prefix), suffix .txt, hash-length in {2, 12, 64}; API ops from all 27 states; session step: 2 files, item 2 absent, hash-length {2, 12}",
+    "bounds": {"quick": "3 data items (two sharing a 2-hex-digit prefix), suffix .txt, hash-length in {2, 12, 64}; API ops from all 27 states; session step: 2 files, item 2 absent, hash-length {2, 12} (+ one cell with the complete hash, 64), flags or review mode with all-yes / all-no answers",
                "thorough": "session step with all 3 items and hash-length {2, 12, 64}"},
     "outside": "more items/files, other suffixes, storage-dir configuration, concurrent sessions, crashes (C15)",
     "assumptions": ["representation invariant of the pre-state: an item is never persisted and -new at once; a reference in a test file implies the data is persisted",
